@@ -72,13 +72,16 @@ def plan(ctx, configs):
 def run(ctx):
     quick = ctx.tier == "quick"
     small = dict(behaviours=["ok", "wrong-id", "auth-error", "close-m1", "bad-sig"], triggers=["zc-same", "zc-changed", "ensure", "close", "shutdown", "drop", "cancel-ensure"])
-    trig = ["close", "shutdown", "drop", "drop-old", "ensure", "zc-same"]
+    trig = ["close", "shutdown", "drop", "drop-old", "late-lost", "ensure", "zc-same"]
     if quick:
         configs = [
             (dict(hosts=["10.0.0.1"], rounds=4, triggers=trig), 2),
             (dict(hosts=["10.0.0.1", "10.0.0.2"], rounds=4, triggers=trig, subscriptions=True), 1),
             (dict(hosts=["10.0.0.1"], rounds=3, triggers=trig, prelude=["ok|10.0.0.1|ok", "close"]), 2),
             (dict(hosts=["10.0.0.1"], rounds=3, triggers=trig, prelude=["ok|10.0.0.1|auth-error"]), 2),
+            # an earlier secure connection whose close completes late (unsent data in its write buffer), closed and reopened
+            (dict(hosts=["10.0.0.1"], rounds=3, triggers=trig, prelude=["ok|10.0.0.1|ok+slow-close", "close", "ensure", "ok|10.0.0.1|ok"]), 2),
+            (dict(hosts=["10.0.0.1"], rounds=3, triggers=trig, prelude=["ok|10.0.0.1|bad-sig+slow-close", "timer", "ok|10.0.0.1|ok"]), 2),
         ]
     else:
         configs = [
@@ -87,6 +90,8 @@ def run(ctx):
             (dict(hosts=["10.0.0.1", "10.0.0.2"], rounds=5, triggers=trig, subscriptions=True), 2),
             (dict(hosts=["10.0.0.1"], rounds=4, triggers=trig, prelude=["ok|10.0.0.1|ok", "close"]), 3),
             (dict(hosts=["10.0.0.1"], rounds=4, triggers=trig, prelude=["ok|10.0.0.1|auth-error"]), 3),
+            (dict(hosts=["10.0.0.1"], rounds=4, triggers=trig, prelude=["ok|10.0.0.1|ok+slow-close", "close", "ensure", "ok|10.0.0.1|ok"]), 3),
+            (dict(hosts=["10.0.0.1"], rounds=4, triggers=trig, prelude=["ok|10.0.0.1|bad-sig+slow-close", "timer", "ok|10.0.0.1|ok"]), 3),
             (dict(hosts=["10.0.0.1", "10.0.0.2"], rounds=4, triggers=trig, prelude=["ok|10.0.0.1|wrong-id", "ok|10.0.0.2|ok", "drop"]), 2),
         ]
     work = plan(ctx, configs)
